@@ -8,12 +8,14 @@ where the SOLUTION is chosen first from a closed-form family
 
     y(x) = cs*sin(w*u + p) + ce*exp(l*u) + q0 + q1*u + q2*u^2 + q3*u^3,     u = x - xc,
 
-whose derivatives of every order are typed analytically (NumPy), the coefficient functions are
+(optionally plus a correction polynomial sum_j q2_j (x - xc2)^j that makes chosen derivatives at chosen points INTEGERS,
+see ``integerise``) whose derivatives of every order are typed analytically (NumPy), the coefficient functions are
 
     a_k(x) = alpha_k + beta_k * s_k(u),    s in {0, sin(om*u+ph), 2/(1+u^2)-1, tanh(om*u)}   (|s| <= 1),
 
 and the right-hand side is DEFINED as f := sum a_k y^(k).  The leading coefficient satisfies
-alpha_K - |beta_K| >= 0.5.  ``self_test`` re-derives y', y'', y''' and f of random instances with SymPy
+alpha_K - |beta_K| >= 0.5.  The whole equation may be multiplied by a common factor ``lam`` (coefficients AND right-hand
+side: the solution does not change).  ``self_test`` re-derives y', y'', y''' and f of random instances with SymPy
 (symbolic differentiation, 30-digit evaluation) and compares with the NumPy closed forms.
 
 Also here: ``map_derivs`` - derivatives g', g'' of an implemented coordinate map obtained ONLY from its forward
@@ -41,6 +43,11 @@ def y_deriv(sol, x, k):
     for j in range(k, len(q)):
         # d^k u^j = j!/(j-k)! u^(j-k)
         out = out + q[j] * (math.factorial(j) / math.factorial(j - k)) * u ** (j - k)
+    q2 = sol.get("q2")
+    if q2:
+        u2 = x - sol["xc2"]
+        for j in range(k, len(q2)):
+            out = out + q2[j] * (math.factorial(j) / math.factorial(j - k)) * u2 ** (j - k)
     return out
 
 
@@ -67,7 +74,8 @@ def coeff_value(c, x):
 class Problem:
     """One manufactured problem; ``params`` is a small JSON-able description (for evidence/replay notes)."""
 
-    def __init__(self, order, sol, coefs):
+    def __init__(self, order, sol, coefs, lam=1.0):
+        self.lam = float(lam)  # common factor of all coefficients and of the right-hand side
         self.order = int(order)
         self.sol = sol
         self.coefs = coefs  # list of K+1 dicts
@@ -83,7 +91,7 @@ class Problem:
         return np.array([self.y(x, k) for k in range(self.order)])
 
     def a(self, k, x):
-        return coeff_value(self.coefs[k], x)
+        return self.lam * coeff_value(self.coefs[k], x)
 
     def f(self, x):
         x = np.asarray(x, dtype=float)
@@ -106,14 +114,14 @@ class Problem:
         const = [c["shape"] == "const" or c["beta"] == 0.0 for c in self.coefs]
         if mode == "array":
             assert all(const)
-            return np.array([c["alpha"] for c in self.coefs], dtype=float)
+            return np.array([self.lam * c["alpha"] for c in self.coefs], dtype=float)
         if mode == "list":
             assert all(const)
-            return [float(c["alpha"]) for c in self.coefs]
+            return [float(self.lam * c["alpha"]) for c in self.coefs]
         out = []
         for k, c in enumerate(self.coefs):
             if const[k] and mode == "mixed":
-                out.append(float(c["alpha"]) if k % 2 else np.float64(c["alpha"]))
+                out.append(float(self.lam * c["alpha"]) if k % 2 else np.float64(self.lam * c["alpha"]))
             else:
                 out.append(self._coef_callback(k))
         return out
@@ -121,7 +129,7 @@ class Problem:
     def _coef_callback(self, k):
         def a_k(x):
             self.calls["coef"] += 1
-            return np.array(coeff_value(self.coefs[k], x), dtype=float)  # fresh array
+            return np.array(self.lam * coeff_value(self.coefs[k], x), dtype=float)  # fresh array
 
         return a_k
 
@@ -129,7 +137,7 @@ class Problem:
         return all(c["shape"] == "const" or c["beta"] == 0.0 for c in self.coefs)
 
     def describe(self):
-        return {"order": self.order, "sol": _round(self.sol), "coefs": [_round(c) for c in self.coefs]}
+        return {"order": self.order, "lam": self.lam, "sol": _round(self.sol), "coefs": [_round(c) for c in self.coefs]}
 
 
 def _round(d):
@@ -180,6 +188,32 @@ def random_problem(rng, order, xc, kind, constant):
     return Problem(order, sol, coefs)
 
 
+def integerise(pr, conds, rng):
+    """Make the prescribed data integers: add to the manufactured solution the polynomial P of degree < len(conds) with
+    P^(k)(x_e) = n - y^(k)(x_e) for every condition (x_e, k) in `conds`, n = an integer next to the current value
+    (so the correction stays O(1)).  f is defined from y, so it follows automatically.  Returns the integers, in order."""
+    m = len(conds)
+    xc2 = float(np.mean([xe for xe, _ in conds]))
+    A = np.zeros((m, m))
+    rhs = np.zeros(m)
+    targets = []
+    pr.sol.pop("q2", None)
+    for i, (xe, k) in enumerate(conds):
+        cur = float(pr.y(np.array([xe]), k)[0])
+        n = int(round(cur)) + int(rng.integers(-1, 2))
+        targets.append(n)
+        rhs[i] = n - cur
+        for j in range(k, m):
+            A[i, j] = math.factorial(j) / math.factorial(j - k) * (xe - xc2) ** (j - k)
+    pr.sol["xc2"] = xc2
+    pr.sol["q2"] = [float(v) for v in np.linalg.solve(A, rhs)]
+    for (xe, k), n in zip(conds, targets):
+        got = float(pr.y(np.array([xe]), k)[0])
+        if abs(got - n) > 1e-12 * max(1.0, abs(n)):
+            raise RuntimeError(f"ode_ref.integerise: y^({k})({xe}) = {got!r}, wanted {n}")
+    return targets
+
+
 # --------------------------------------------------------------------------- conditioning of the problem itself
 def propagators(pr, xs):
     """Phi(xs[i], xs[0]) (n, K, K): fundamental matrices of the homogeneous companion system of the problem in the
@@ -218,27 +252,52 @@ def propagators(pr, xs):
 
 # --------------------------------------------------------------------------- map derivatives from the forward map
 def map_derivs(tf, x, nmax=2, n=20, rho_cap=0.2):
-    """[g'(x), g''(x), (g''')] of the implemented map r = tf.transform(x), from the forward map only.
+    """[g'(x), g''(x), ...] (nmax of them) of the implemented map r = tf.transform(x), from the forward map only.
 
-    Chebyshev interpolation of degree n-1 on [x-rho, x+rho] with rho = min(rho_cap, 0.45*distance to the nearest
-    end of tf.domain); all sample points stay inside the domain.
+    Chebyshev interpolation of degree n-1 on [x-rho, x+rho] with rho = min(max(rho_cap, 0.05|x|), 0.45*distance to the
+    nearest end of tf.domain); all sample points stay inside the domain.  The map is sampled and the coefficients are
+    formed in np.longdouble (every transform class accepts it): for maps with a tiny slope on top of an O(1) offset
+    double-precision samples would not resolve the variation of the map.
     """
-    from numpy.polynomial import chebyshev as C
-
+    ld = np.longdouble
     lo, hi = (float(v) for v in tf.domain)
     x = float(x)
     d = min(x - lo if math.isfinite(lo) else math.inf, hi - x if math.isfinite(hi) else math.inf)
-    rho = min(rho_cap, 0.45 * d)
+    rho = min(max(rho_cap, 0.05 * abs(x)), 0.45 * d)
     if not rho > 0:
         raise ValueError(f"map_derivs: point {x} not strictly inside the domain {tf.domain}")
-    t = np.cos(math.pi * (np.arange(n) + 0.5) / n)
-    vals = np.asarray(tf.transform(x + rho * t), dtype=float)
-    c = C.chebfit(t, vals, n - 1)
+    theta = (np.arange(n, dtype=ld) + ld(0.5)) * _PI_LD / ld(n)
+    t = np.cos(theta)
+    vals = np.asarray(tf.transform(ld(x) + ld(rho) * t), dtype=ld)
+    # discrete Chebyshev transform at the Chebyshev nodes: c_k = (2 - [k=0])/n * sum_j f(t_j) cos(k theta_j)
+    kk = np.arange(n, dtype=ld)
+    c = (np.cos(kk[:, None] * theta[None, :]) @ vals) * (ld(2) / ld(n))
+    c[0] = c[0] / ld(2)
     out = []
     for k in range(1, nmax + 1):
-        c = C.chebder(c)
-        out.append(float(C.chebval(0.0, c)) / rho**k)
+        c = _chebder(c)
+        t0 = np.array([(1, 0, -1, 0)[i % 4] for i in range(c.size)], dtype=ld)  # T_i(0)
+        out.append(float((c @ t0) / ld(rho) ** k))
     return out
+
+
+_PI_LD = np.longdouble("3.14159265358979323846264338327950288")
+
+
+def _chebder(c):
+    """Derivative of a Chebyshev series (the recurrence of numpy's chebder, dtype preserving)."""
+    n = c.size - 1
+    if n < 1:
+        return np.zeros(1, dtype=c.dtype)
+    c = c.copy()
+    der = np.zeros(n, dtype=c.dtype)
+    for j in range(n, 2, -1):
+        der[j - 1] = 2 * j * c[j]
+        c[j - 2] += j * c[j] / (j - 2)
+    if n > 1:
+        der[1] = 4 * c[2]
+    der[0] = c[1]
+    return der
 
 
 def bell_matrix(g1, g2, size):
@@ -266,17 +325,22 @@ def self_test(nprob=3, seed=12345):
     for i in range(nprob):
         order = 1 + i % 3
         pr = random_problem(rng, order, xc=float(rng.uniform(-0.5, 3.0)), kind="ivp" if i % 2 else "bvp", constant=False)
+        pr.lam = (1.0, 3.7e-18, 2.5e11)[i % 3]
+        x0 = pr.sol["xc"] - 0.7
+        ints = integerise(pr, [(x0, k) for k in range(order)] + ([(x0 + 1.5, 0)] if i % 2 else []), rng)
+        assert all(isinstance(n, int) for n in ints) and abs(float(pr.y(np.array([x0]), 0)[0]) - ints[0]) < 1e-12
         s = pr.sol
         R = lambda v: sp.Rational(repr(float(v)))  # exact decimal of the double's repr  # noqa: E731
         u = X - R(s["xc"])
         ysym = R(s["cs"]) * sp.sin(R(s["w"]) * u + R(s["p"])) + R(s["ce"]) * sp.exp(R(s["l"]) * u) + sum(R(q) * u**j for j, q in enumerate(s["q"]))
+        ysym = ysym + sum(R(q) * (X - R(s["xc2"])) ** j for j, q in enumerate(s["q2"]))
         fsym = 0
         pts = [float(s["xc"] + t) for t in (-1.1, -0.3, 0.0, 0.45, 1.2)]
         for k in range(order + 1):
             c = pr.coefs[k]
             uc = X - R(c["xc"])
             shp = {"const": sp.Integer(0), "sin": sp.sin(R(c["om"]) * uc + R(c["ph"])), "lorentz": 2 / (1 + uc**2) - 1, "tanh": sp.tanh(R(c["om"]) * uc)}[c["shape"]]
-            asym = R(c["alpha"]) + R(c["beta"]) * shp
+            asym = R(pr.lam) * (R(c["alpha"]) + R(c["beta"]) * shp)
             dk = sp.diff(ysym, X, k)
             fsym = fsym + asym * dk
             for xv in pts:
@@ -284,10 +348,10 @@ def self_test(nprob=3, seed=12345):
                 got = float(pr.y(np.array([xv]), k)[0])
                 worst = max(worst, abs(ref - got) / (1 + abs(ref)))
                 refa = float(asym.evalf(30, subs={X: R(xv)}))
-                worst = max(worst, abs(refa - float(pr.a(k, np.array([xv]))[0])))
+                worst = max(worst, abs(refa - float(pr.a(k, np.array([xv]))[0])) / pr.lam)
         for xv in pts:
             ref = float(fsym.evalf(30, subs={X: R(xv)}))
-            worst = max(worst, abs(ref - float(pr.f(np.array([xv]))[0])) / (1 + abs(ref)))
+            worst = max(worst, abs(ref - float(pr.f(np.array([xv]))[0])) / (pr.lam + abs(ref)))
         # callbacks return fresh arrays
         xx = np.array(pts)
         fx = pr.fx_callback()
@@ -305,6 +369,10 @@ def self_test(nprob=3, seed=12345):
         g1, g2 = map_derivs(m2, xv)
         e1 = 0.16 * math.exp(0.8 * xv)
         assert abs(g1 / e1 - 1) < 1e-10 and abs(g2 / (0.8 * e1) - 1) < 1e-7, (xv, g1 / e1 - 1)
+    # tiny slope on top of an O(1) offset (needs the extended-precision sampling)
+    m3 = _FakeMap(lambda x: 0.3 + 1e-7 * (x + 0.25 * x * x), (-1, 1))
+    g1, g2 = map_derivs(m3, 0.4)
+    assert abs(g1 / 1.2e-7 - 1) < 1e-8 and abs(g2 / 0.5e-7 - 1) < 1e-5, (g1 / 1.2e-7 - 1, g2 / 0.5e-7 - 1)
     # propagators on y'' + 4 y = 0: Phi(x, 0) = [[cos 2x, sin 2x / 2], [-2 sin 2x, cos 2x]]
     c0 = {"shape": "const", "xc": 0.0, "om": 0.0, "ph": 0.0, "beta": 0.0}
     pr = Problem(2, random_solution(rng, 0.0), [dict(c0, alpha=4.0), dict(c0, alpha=0.0), dict(c0, alpha=1.0)])
